@@ -37,6 +37,7 @@ THIS SOFTWARE, EVEN IF ADVISED OF THE POSSIBILITY OF SUCH DAMAGE.
 
 #include <functional>
 #include <thread>
+#include <atomic>
 #include <cstring>
 
 #define VLAN_HDR_LEN  4
@@ -74,7 +75,7 @@ protected:
   std::function<void(std::shared_ptr<Buffer>, bool)> cb_put_pkt_;
   std::function<void(const Error&)> cb_excep_;
   std::thread recv_thread_;
-  bool to_exit_recv_;
+  std::atomic<bool> to_exit_recv_;
   bool init_flag_;
   bool start_flag_;
 };
